@@ -440,6 +440,10 @@ def run_for(prop, tier, only=None):
     rep = Report(prop, tier, "exploration", f"./check {prop} --tier {tier}")
     rs = run_pool(job, all_jobs(tier, prop), chunksize=2)
     rs = [r for r in rs if r.get("prop", prop) == prop or r["status"] == common.ENGINE]
+    if prop == "C02":
+        # local layer: step contracts of the node compilers, discharged for all qubit values (modular over the contract of compile_expr)
+        from . import c02_local
+        rs += run_pool(c02_local.job, c02_local.jobs(tier), chunksize=8)
     rep.add(rs)
     deciding = [r for r in rs if r.get("strength") == "bounded"]
     floor = {"C02": 600, "C03": 300, "C06": 150}[prop]
@@ -456,7 +460,9 @@ def run_for(prop, tier, only=None):
                                   bound="<= 12 input bits", all_values=True))
     rep.assumptions = ["A8 standard meaning of X/CX/CCX/MCX is the semantics of a gate list (the repository never defines it)",
                        "the oracle is the denotation of the expressions the same run reports (C02 is relative to the expressions; their meaning is C01's business)",
-                       "bounded: program / formula families are truncated enumerations; nothing here is counted as proved"]
+                       "bounded: program / formula families are truncated enumerations; of C02 only the LOCAL step contracts of the node compilers (compile_and/or/not/xor, "
+                       "the leaves and the dispatcher; operands' result qubits pairwise distinct and different from dest, free ancillas hold 0, Or of <= 2 operands) are counted as proved - "
+                       "they assume the contract of compile_expr on the operands, which compile_not itself breaks in one case (recorded finding): the composition of the steps is NOT a proof of the compiler"]
     for r in rs[:3]:
         rep.samples.append({k: r.get(k) for k in ("name", "status", "gates", "qubits", "program", "definitions")})
     return rep
